@@ -353,7 +353,9 @@ class HistogramBase(abc.ABC):
         if self._errors2 is not None:
             self._errors2 = self._errors2.astype(value)
         if self._missed is not None:
-            self._missed = self._missed.astype(value)
+            if not (value.kind in "iu" and np.any(np.isnan(self._missed))):
+                # ("unknown" missed counts stay floating-point, integers cannot express them)
+                self._missed = self._missed.astype(value)
 
     def _coerce_dtype(self, other_dtype: DTypeLike) -> None:
         """Possibly change the bin content type to allow correct operations with other operand.
@@ -903,7 +905,7 @@ class HistogramBase(abc.ABC):
                 self._coerce_dtype(other.dtype)
                 self.frequencies = self.frequencies + other.frequencies
                 self.errors2 = self.errors2 + other.errors2
-                self._missed += other._missed
+                self._missed = self._missed + other._missed
             elif self.is_adaptive():
                 if other.missed > 0:
                     raise ValueError("Cannot adapt histogram with missed values.")
@@ -960,7 +962,7 @@ class HistogramBase(abc.ABC):
                 self.errors2 = (adapted_self.errors2 + adapted_other.errors2).astype(
                     self.dtype
                 )
-                self._missed -= other._missed
+                self._missed = self._missed - other._missed
             self._stats = INVALID_STATISTICS
             return self
         array = np.asarray(other)
